@@ -11,7 +11,7 @@ ANCHOR_PREFIXES = ["connector::", "element::SvgElement::transmute", "element::Sv
 BOUNDS = ("two boxes (rect/circle) with symbolic position (integers in [-64,64]) and size (integers in [0,32]); endpoint specs {#el, #el@loc (9), #el@edge:offset (symbolic either sign / 25% / 50% / 150%, all four edges), "
           "literal point (symbolic)} on either end; kinds {line straight, edge-type h, edge-type v, corner polyline with corner-offset absent / 25% / 125% / absolute symbolic of either sign}; "
           "paths: those reached from 12 seeded arrangements (9 sectors, overlapping, touching, identical) plus solver-driven negation for templates without a closest-location search; "
-          "every reached path is decided for all values (nonlinear real arithmetic over the hull of the domain)")
+          "every reached path is decided for all values (nonlinear real arithmetic over the hull of the domain); connectors written before / between their ends and with a relatively placed second box; stray connector attributes on non-corner connectors; edge-type on a <polyline>")
 ASSUMPTIONS = ["candidate locations: edge mid-points t r b l, plus the four corners for straight lines; l r only for edge-type h, t b only for edge-type v (property text + docs connectors.md)",
                "ties between equally distant candidates may resolve either way", "corner-offset: percent of the span from start to end (default 50%), absolute from the start towards the end; same-direction (U) connectors take an absolute offset (default 3) beyond the outermost end point (docs)"]
 
